@@ -139,7 +139,20 @@ impl WriteAheadLog {
         };
 
         let file = open_segment(&segment_path).await?;
-        let current_size = file.metadata().await.map_err(map_io_error)?.len();
+        let mut current_size = file.metadata().await.map_err(map_io_error)?.len();
+
+        // A crash may have cut the last write. Drop the torn tail before appending,
+        // otherwise every entry written after it is unreadable at the next recovery.
+        let (_, valid_len) = read_entries_and_valid_len(&segment_path)?;
+        if valid_len < current_size {
+            warn!(
+                "Truncating torn tail of {:?}: {} -> {} bytes",
+                segment_path, current_size, valid_len
+            );
+            file.set_len(valid_len).await.map_err(map_io_error)?;
+            current_size = valid_len;
+        }
+
         let next_seq = match last_sequence_in_segments(&segments)? {
             Some(last_seq) => last_seq + 1,
             None => 1,
@@ -321,9 +334,16 @@ fn decode_header(header: &[u8; HEADER_LEN]) -> Result<(u64, u8, usize, u32)> {
 }
 
 fn read_entries_from_path(path: &Path) -> Result<Vec<WalEntry>> {
+    Ok(read_entries_and_valid_len(path)?.0)
+}
+
+/// Read the complete entries of a segment, and the byte length they occupy
+/// (anything beyond that length is a torn or corrupt tail).
+fn read_entries_and_valid_len(path: &Path) -> Result<(Vec<WalEntry>, u64)> {
     let file = StdFile::open(path).map_err(map_io_error)?;
     let mut reader = BufReader::new(file);
     let mut entries = Vec::new();
+    let mut valid_len = 0u64;
     loop {
         let mut header = [0u8; HEADER_LEN];
         match read_exact_or_eof(&mut reader, &mut header) {
@@ -373,13 +393,14 @@ fn read_entries_from_path(path: &Path) -> Result<Vec<WalEntry>> {
             );
             break;
         }
+        valid_len += (HEADER_LEN + payload.len()) as u64;
         entries.push(WalEntry {
             seq,
             flags,
             payload,
         });
     }
-    Ok(entries)
+    Ok((entries, valid_len))
 }
 
 fn read_exact_or_eof<R: Read>(reader: &mut R, buffer: &mut [u8]) -> Result<bool> {
